@@ -10,6 +10,7 @@ import (
 	"sync"
 	"time"
 	"verifh/fw"
+	"verifh/vt"
 
 	"github.com/brewlin/net-protocol/pkg/buffer"
 	tcpip "github.com/brewlin/net-protocol/protocol"
@@ -130,6 +131,7 @@ func (l *Link) Since() time.Duration                         { return time.Since
 func (l *Link) AddTap(f func(f *Frame))                      { l.Taps = append(l.Taps, f) }
 
 func (l *Link) WritePacket(r *stack.Route, hdr buffer.Prependable, payload buffer.VectorisedView, protocol tcpip.NetworkProtocolNumber) *tcpip.Error {
+	vt.Tick()
 	h := hdr.View()
 	p := payload.ToView()
 	data := make([]byte, 0, len(h)+len(p))
@@ -159,6 +161,7 @@ func (l *Link) WritePacket(r *stack.Route, hdr buffer.Prependable, payload buffe
 
 // Inject delivers a network-layer packet to the stack as if it arrived on this link.
 func (l *Link) Inject(proto tcpip.NetworkProtocolNumber, data []byte, remote tcpip.LinkAddress) {
+	vt.Tick()
 	b := append([]byte(nil), data...)
 	var vv buffer.VectorisedView
 	if l.ViewSize > 0 && len(b) > l.ViewSize {
